@@ -487,3 +487,74 @@ impl TokenComparable for TokenSet {
         self.contains(kind)
     }
 }
+
+// ---- verification hooks (add-only, compiled only with `--cfg fontc_verif`) ----
+#[cfg(fontc_verif)]
+impl<'b, 'a> Parser<'a, 'b> {
+    /// Every lexeme `(kind as u16, len)` the real lexer produces up to the end of `text`.
+    pub(crate) fn verif_lex(text: &str) -> Vec<(u16, usize)> {
+        let mut lexer = Lexer::new(text);
+        let mut out = Vec::new();
+        let mut pos = 0;
+        while pos < text.len() {
+            let t = lexer.next_token();
+            out.push((t.kind as u16, t.len));
+            if t.len == 0 {
+                break;
+            }
+            pos += t.len;
+        }
+        out
+    }
+
+    /// The lookahead buffer: (start_pos, trivia_len, number of trivia lexemes, kind, len).
+    pub(crate) fn verif_buf(&self) -> Vec<(usize, usize, usize, u16, usize)> {
+        self.buf
+            .iter()
+            .map(|p| {
+                (
+                    p.start_pos,
+                    p.trivia_len,
+                    p.preceding_trivia.len(),
+                    p.token.kind as u16,
+                    p.token.len,
+                )
+            })
+            .collect()
+    }
+
+    /// `do_bump::<N>(kind)` for N in 1..=3.
+    pub(crate) fn verif_do_bump(&mut self, n: usize, kind: Kind) {
+        match n {
+            1 => self.do_bump::<1>(kind),
+            2 => self.do_bump::<2>(kind),
+            3 => self.do_bump::<3>(kind),
+            _ => panic!("verif_do_bump: unsupported N"),
+        }
+    }
+
+    /// `split_remap_current` with a split function that returns `parts` unchanged.
+    pub(crate) fn verif_split(&mut self, parts: &[(usize, usize, Kind)]) -> bool {
+        let k = self.nth(0).kind;
+        self.split_remap_current(k, |_text, buf| {
+            buf.extend(parts.iter().map(|(a, b, k)| (*a..*b, *k)));
+        })
+    }
+}
+
+#[cfg(fontc_verif)]
+impl<'b, 'a> Parser<'a, 'b> {
+    pub(crate) fn verif_sink_snapshot(
+        &self,
+    ) -> (Vec<crate::NodeOrToken>, usize, bool, Option<u16>, usize) {
+        self.sink.verif_snapshot()
+    }
+
+    #[allow(clippy::type_complexity)]
+    pub(crate) fn verif_sink_after(
+        &self,
+        from: usize,
+    ) -> (Option<crate::NodeOrToken>, Vec<(usize, usize, bool)>) {
+        self.sink.verif_after(from)
+    }
+}
